@@ -102,8 +102,10 @@ def build_ops(ops, g=None):
             out.append(epg.S(int(o[1])))
         elif o[0] == "Sintnd":
             out.append(epg.S(np.array([o[1]], dtype=int)))
-        elif o[0] == "C":
-            out.append(epg.C(float(o[1])))
+        elif o[0] == "Sb":      # batched shift: one row of wavenumbers per batch entry
+            out.append(epg.S(np.array(o[1], dtype=float)))
+        elif o[0] == "C":       # scalar delay, or one delay per batch entry
+            out.append(epg.C([float(v) for v in o[1]] if isinstance(o[1], list) else float(o[1])))
         elif o[0] == "E":
             out.append(epg.E(o[1], o[2], o[3]) if g is None else epg.E(o[1], o[2], o[3], g))
         elif o[0] == "P":
@@ -320,6 +322,11 @@ def gen_case(rng, stream):
         timed = kind == "intnd" and rng.random() < 0.4
     nblock = rng.choice([1, 2, 2, 3]) if stream != "reduce" else rng.choice([1, 2])
     batch = rng.random() < (0.35 if stream != "mask" else 0.0)
+    BT = 0
+    if stream == "btime":
+        # batch-dependent phase-state times / wavenumbers: C(tau) with one delay per batch entry, batched shifts
+        d, timed, kind, batch, nblock = rng.choice([1, 1, 2]), True, "float", False, rng.choice([1, 2, 2])
+        BT = rng.choice([1, 2, 2, 3, 3])
     ops = []
     tau_total = 0.0
     for b in range(nblock):
@@ -338,16 +345,31 @@ def gen_case(rng, stream):
                 kv = [rng.randint(-8, 8) * kgrid for _ in range(d)]
             if stream == "mask":
                 kv = [rng.choice([0.5, 1.0, -0.5, 0.25, 0.75]) for _ in range(d)]
-            ops.append(["S", kv])
+            if BT > 1 and rng.random() < 0.3:
+                rows = []
+                for _ in range(BT):
+                    kv = [0.0] * d
+                    while not any(kv):
+                        kv = [rng.randint(-6, 6) * kgrid for _ in range(d)]
+                    rows.append(kv)
+                ops.append(["Sb", rows])
+            else:
+                ops.append(["S", kv])
         tau = rng.choice([0.5, 1.0, 1.5, 2.0, 3.0])
         if rng.random() < 0.6:
             ops.append(["E", tau, rng.choice([500.0, 1000.0]), rng.choice([40.0, 80.0])])
-        if timed:
+        if timed and BT and (b == 0 or rng.random() < 0.5):
+            ops.append(["C", rng.sample([0.25, 0.5, 0.75, 1.0, 1.5, 2.0, 2.5, 3.0], BT)])
+        elif timed:
             ops.append(["C", tau])
             tau_total += tau
     cols = 3 if timed else d
     npos = rng.choice([1, 2, 3]) if stream != "reduce" else rng.choice([1, 2])
     layout = rng.choice(["Pd", "Pd", "flat", "grid"]) if d == 1 else rng.choice(["Pd", "Pd", "Pd", "grid"])
+    if BT:
+        # positions: as many as, fewer than, more than batch entries
+        npos = rng.choice([BT, BT, max(1, BT - 1), BT + 1, 1])
+        layout = rng.choice(["Pd", "flat"]) if d == 1 else "Pd"
     pt = lambda: [q(rng, -1, 1, 8) for _ in range(d)]
     if layout == "flat":
         pos = [pt()[0] for _ in range(npos)]
@@ -358,7 +380,7 @@ def gen_case(rng, stream):
     else:
         pos = [pt() for _ in range(npos)]
         pshape = (npos,)
-    B = 2 if batch else 1
+    B = BT if BT else (2 if batch else 1)
     full = (B,) + pshape
     c = {"ops": ops, "kgrid": kgrid if kind == "float" or timed else None, "pos": pos,
          "voxel_shape": rng.choice(["box", "box", "point"]), "stream": stream}
@@ -384,7 +406,7 @@ def gen_case(rng, stream):
             return np.array([gen() for _ in range(B)]).reshape((B,) + (1,) * len(pshape)).tolist()
         return np.array([gen() for _ in range(int(np.prod(full)))]).reshape(full).tolist()
 
-    if timed and rng.random() < 0.8:
+    if timed and (BT or rng.random() < 0.8):
         mk = rng.choice(["real", "imag", "complex"])
         if stream == "mask":
             v = rng.choice([-7.0, -8.0, -10.0])
@@ -405,11 +427,17 @@ def gen_case(rng, stream):
     if stream == "mask" and c["voxel_shape"] == "box":
         c["voxel_size"] = float(2 * np.pi / (kgrid * rng.choice([1, 2])))
     if stream == "reduce":
-        c["reduce"] = rng.choice([True, 0, 1, -1, list(range(len(full)))] + ([[0, 1]] if len(full) > 1 else []))
+        # every reduce setting in turn (the bare integer 0 first), not left to chance
+        turn = getattr(rng, "_c15_reduce_turn", 0)
+        rng._c15_reduce_turn = turn + 1
+        options = [0, True, 1, -1, list(range(len(full)))] + ([[0, 1]] if len(full) > 1 else [])
+        c["reduce"] = options[turn % len(options)]
         if isinstance(c["reduce"], int) and not isinstance(c["reduce"], bool) and c["reduce"] >= len(full):
             c["reduce"] = 0
     else:
         c["reduce"] = rng.choice([False, False, False, "default"]) if int(np.prod(full)) > 1 else rng.choice([False, "default", True])
+    if BT:
+        c["reduce"] = False
     if stream == "repeat":
         c["repeat"] = 2
     return c
@@ -418,8 +446,8 @@ def gen_case(rng, stream):
 # ------------------------------------------------------------------ (a) correspondence
 def correspondence(ctx):
     quick = ctx.tier == "quick"
-    budget = 800 if quick else 8000
-    streams = ["main"] * 5 + ["mask", "mask", "reduce", "reduce", "int", "repeat", "repeat"]
+    budget = 720 if quick else 8000
+    streams = ["main", "btime", "main", "mask", "btime", "main", "reduce", "mask", "btime", "main", "reduce", "int", "repeat", "repeat"]
     goals, meta = [], []
     units, ncase, skipped, nform = 0, 0, 0, 0
     dist = {}
@@ -435,8 +463,9 @@ def correspondence(ctx):
             continue
         pos, pshape, bshape, full, w, mod = entries_of(c, F, k, t)
         shape, layout = reduced_layout(c, full)
-        # masks: `any` over all entries in the source; the generator keeps k, t batch-independent and, in the
-        # mask stream, the modulation uniform, so every entry must take the same decision
+        # masks: `any` over all entries in the source; in the mask stream k, t are batch-independent and the modulation
+        # uniform; elsewhere (btime: batch-dependent t / k) the parameters keep every state, so every entry must
+        # take the same decision
         keeps0 = None
         uniform = True
         for idx in np.ndindex(*full):
@@ -586,6 +615,84 @@ def oracle_offres(c):
     return float(np.abs(a - b).max()), float(np.abs(a - iso).max()), a, b
 
 
+def entry_ops(ops, b):
+    """the scalar sequence of batch entry b: C([t0, t1, ..]) -> C(t_b), batched shift -> its b-th row"""
+    out = []
+    for o in ops:
+        if o[0] == "C" and isinstance(o[1], list):
+            out.append(["C", o[1][b]])
+        elif o[0] == "Sb":
+            out.append(["S", o[1][b]])
+        else:
+            out.append(o)
+    return out
+
+
+def oracle_btime(c):
+    """batch-dependent phase-state times: every batch entry of one batched run (C(tau array), batched shifts) probed with a
+    modulation vs (1) the scalar run of that entry with the same probe, (2) for an imaginary modulation, independent Bloch
+    isochromats precessing at f during the delays ('point': at the positions; 'box' 1-D: 32-node Gauss-Legendre voxel average).
+    Returns (error or None, text)"""
+    import epgpy as epg
+    from epgpy.probe import Imaging
+    pos = np.array(c["pos"], dtype=float)
+    mod = complex(c["re"], c["f"]) if c["mod_kind"] != "real" else float(c["re"])
+    popts = {"voxel_shape": c["voxel"], "voxel_size": c["size"], "reduce": False}
+    B = c["B"]
+
+    def run(ops):
+        seq = build_ops(ops) + [epg.ADC]
+        if c["via"] == "system":
+            return np.asarray(epg.simulate([epg.System(modulation=mod)] + seq, probe=Imaging(pos, **popts), kgrid=c["kgrid"]))[0]
+        return np.asarray(epg.simulate(seq, probe=Imaging(pos, modulation=mod, **popts), kgrid=c["kgrid"]))[0]
+    try:
+        v = run(c["ops"])
+    except Exception as e:
+        return 1.0, "batched run raises %s: %s" % (type(e).__name__, str(e)[:160])
+    if v.shape != (B, pos.shape[0]):
+        return 1.0, "batched run returns shape %s, expected %s" % (v.shape, (B, pos.shape[0]))
+    worst, txt = 0.0, ""
+    for b in range(B):
+        ops_b = entry_ops(c["ops"], b)
+        ref = run(ops_b).reshape(-1)
+        e = float(np.abs(v[b] - ref).max())
+        if e > worst:
+            worst, txt = e, "batch entry %d: batched %s, scalar-delay run %s" % (b, v[b].tolist(), ref.tolist())
+        if c["mod_kind"] == "imag":
+            if c["voxel"] == "point":
+                iso = bloch_isochromats(ops_b, pos, f=c["f"])
+            else:
+                g, wq = np.polynomial.legendre.leggauss(32)
+                iso = np.array([bloch_isochromats(ops_b, (x0 + 0.5 * c["size"] * g)[:, None], f=c["f"]) @ (wq / 2) for x0 in pos[:, 0]])
+            e = float(np.abs(v[b] - iso).max())
+            if e > worst:
+                worst, txt = e, "batch entry %d: batched %s, off-resonant isochromats %s" % (b, v[b].tolist(), iso.tolist())
+    return (worst if worst > 1e-9 else None), txt
+
+
+def gen_oracle_btime(rng):
+    B = rng.choice([1, 2, 2, 3, 3])
+    d = 1
+    ops = []
+    for blk in range(rng.choice([1, 2, 3])):
+        ops.append(["T", rng.choice([20, 30, 45, 60, 90, 120]), rng.choice([0, 10, 40, 90, 200])])
+        if B > 1 and rng.random() < 0.25:
+            ops.append(["Sb", [[rng.choice([-1.5, -1.0, -0.5, 0.25, 0.5, 1.0, 2.0])] for _ in range(B)]])
+        else:
+            ops.append(["S", [rng.choice([-1.5, -1.0, -0.5, 0.25, 0.5, 1.0, 2.0])]])
+        if rng.random() < 0.5:
+            ops.append(["E", rng.choice([0.5, 1.0, 2.0]), rng.choice([500.0, 1000.0]), rng.choice([40.0, 80.0])])
+        if blk == 0 or rng.random() < 0.5:
+            ops.append(["C", rng.sample([0.25, 0.5, 0.75, 1.0, 1.5, 2.0, 2.5, 3.0], B)])
+        else:
+            ops.append(["C", rng.choice([0.5, 1.0, 1.5])])
+    npos = rng.choice([B, B, max(1, B - 1), B + 1, 1])
+    kind = rng.choice(["imag", "imag", "real", "complex"])
+    return {"kind": "oracle_btime", "ops": ops, "kgrid": 0.25, "B": B, "pos": [[q(rng, -1, 1, 8)] for _ in range(npos)],
+            "mod_kind": kind, "re": 0.0 if kind == "imag" else -rng.randint(1, 16) / 32, "f": 0.0 if kind == "real" else rng.randint(-32, 32) / 256,
+            "via": rng.choice(["args", "system"]), "voxel": rng.choice(["point", "box"]), "size": rng.choice([0.3, 0.5, 0.8, 1.25])}
+
+
 def gen_oracle_ops(rng, d, timed=True, relax=True):
     ops = []
     for b in range(rng.choice([2, 3])):
@@ -606,6 +713,7 @@ def oracle(ctx):
     quick = ctx.tier == "quick"
     rng = ctx.rng
     n1, n2, n3 = (8, 3, 10) if quick else (120, 30, 150)
+    n4 = 12 if quick else 200
     runs = 0
     for _ in range(n1):
         c = {"kind": "oracle_box", "ops": gen_oracle_ops(rng, 1, timed=rng.random() < 0.5), "kgrid": 0.25,
@@ -635,6 +743,19 @@ def oracle(ctx):
         if e_g > 1e-9 or e_iso > 1e-9:
             ctx.report("imaginary modulation i*f differs from simulating with off-resonance g = f (%.3g) / from Bloch isochromats (%.3g)" % (e_g, e_iso),
                        dict(c, with_modulation=str(a.tolist()), with_offres=str(b.tolist())), found_input=True, signature={"oracle": "offres"})
+    nbt = 0
+    for _ in range(n4):
+        c = gen_oracle_btime(rng)
+        err, txt = oracle_btime(c)
+        runs += 1
+        ctx.count(("oracle_btime", json.dumps(c, sort_keys=True)))
+        if err is not None:
+            nbt += 1
+            if nbt <= 2:
+                ctx.report("Imaging with a modulation on a batch of delays (batch-dependent phase-state times) differs from the per-entry "
+                           "scalar run / off-resonant isochromats by %.3g: %s" % (err, txt), dict(c, detail=txt), found_input=True,
+                           signature={"oracle": "batched-times"})
+    ctx.cov["oracle_batched_time_runs"] = n4
     ctx.cov["oracle_runs"] = runs
     ctx.cov["evaluations"] += runs
 
@@ -822,6 +943,10 @@ def replay(ctx, rp):
         e_g, e_iso, a, b = oracle_offres(rp)
         print("replay: |modulation - offres| %.3g, vs isochromats %.3g" % (e_g, e_iso))
         return 1 if max(e_g, e_iso) > 1e-9 else 0
+    if kind == "oracle_btime":
+        err, txt = oracle_btime(rp)
+        print("replay: %s (%s)" % ("max |diff| %.3g" % err if err else "no discrepancy", txt))
+        return 1 if err else 0
     if kind == "repeat":
         pops, a, b = pops_present()
         print("replay: Imaging([0.0], modulation=0.1j, voxel_shape='point') used twice: %r then %r" % (a, b))
